@@ -380,6 +380,96 @@ def run_multi(ctx):
     ctx.coverage['evaluations'] += len(jobs)
 
 
+def console_blocks(text):
+    """console output of several (rules, data) evaluations: one block per `<data file> Status = X` header"""
+    blocks, cur = [], None
+    for line in text.splitlines():
+        m = re.match(r'^(\S.*) Status = (PASS|FAIL|SKIP)$', line)
+        if m:
+            cur = {'file': os.path.basename(m.group(1)), 'status': m.group(2), 'lines': []}
+            blocks.append(cur)
+        elif cur is not None:
+            cur['lines'].append(line)
+    for b in blocks:
+        b['tables'] = sets_from_summary('\n'.join(['x Status = %s' % b['status']] + b['lines']), 'r.guard')
+    return blocks
+
+
+def run_multi_data(ctx):
+    """ONE rules file against SEVERAL data files with every combination and order of per-file outcomes: every rendering must
+    give, for every data file, the status and rule lists of that file evaluated alone (a per-file line must not carry the
+    cumulative status of the run)"""
+    import itertools
+    rules = 'rule t when x exists {\n  x == 1 <<wrong x>>\n}\nrule u {\n  y !exists or y == 2\n}\n'
+    docs = {'P': {'x': 1, 'y': 2}, 'F': {'x': 2}, 'S': {'z': 1, 'y': 2}, 'G': {'x': 1, 'y': 3}}
+    want = {'P': ('PASS', ['t', 'u'], [], []), 'F': ('FAIL', ['u'], ['t'], []), 'S': ('PASS', ['u'], [], ['t']), 'G': ('FAIL', ['t'], ['u'], [])}
+    jobs, meta = [], []
+    k = 0
+    combos = [c for n in (2, 3) for c in itertools.product('PFSG', repeat=n)]
+    if ctx.tier != 'thorough':
+        combos = [c for c in combos if len(c) == 2] + [c for i, c in enumerate(c for c in combos if len(c) == 3) if i % 4 == ctx.seed % 4]
+    for combo in combos:
+        d = os.path.join(ctx.wd, 'mdata%d' % k); k += 1
+        files = {'r.guard': rules}
+        dargs = []
+        for i, c in enumerate(combo):
+            files['data/d%d.json' % i] = json.dumps(docs[c])
+            dargs += ['-d', 'data/d%d.json' % i]
+        e2e.write_files(d, files)
+        base = ['validate', '-r', 'r.guard'] + dargs
+        for lab, extra in (('summary-all', ['-S', 'all']), ('verbose', ['-v', '-S', 'all']), ('o-json-all', ['-o', 'json', '-S', 'all']), ('o-yaml-all', ['-o', 'yaml', '-S', 'all']),
+                           ('o-json', ['-o', 'json', '-S', 'none']), ('s-json', ['--structured', '-o', 'json', '-S', 'none']), ('s-yaml', ['--structured', '-o', 'yaml', '-S', 'none']),
+                           ('s-junit', ['--structured', '-o', 'junit', '-S', 'none']), ('dir', None)):
+            args = base + extra if extra is not None else ['validate', '-r', 'r.guard', '-d', 'data', '-S', 'all']
+            jobs.append({'args': args, 'cwd': d}); meta.append((combo, lab))
+    res = e2e.run_many(jobs)
+    by = {}
+    for (combo, lab), r in zip(meta, res):
+        by.setdefault(combo, {})[lab] = r
+    n = 0
+    for combo, runs in by.items():
+        n += 1
+        info = {'class': 'format-independence', 'rules': rules, 'data_files': [docs[c] for c in combo], 'outcomes': ''.join(combo)}
+        code = 19 if any(want[c][0] == 'FAIL' for c in combo) else 0
+        for lab, (c, so, se) in runs.items():
+            if c != code:
+                ctx.failing('data files with outcomes %s: %s exits %s, expected %s' % (''.join(combo), lab, c, code), dict(info, mode=lab), found=True)
+        expected = [('d%d.json' % i, want[c]) for i, c in enumerate(combo)]
+        for lab in ('summary-all', 'verbose', 'o-json-all', 'o-yaml-all', 'dir'):
+            bl = console_blocks(runs[lab][1].decode('utf-8', 'replace'))
+            got = sorted((b['file'], b['status'], tuple(b['tables']['PASS']), tuple(b['tables']['FAIL']), tuple(b['tables']['SKIP'])) for b in bl)
+            exp = sorted((f, w[0], tuple(sorted(w[1])), tuple(sorted(w[2])), tuple(sorted(w[3]))) for f, w in expected)
+            if got != exp:
+                ctx.failing('data files with outcomes %s: the console output (%s) shows %s per file, each file alone gives %s' % (''.join(combo), lab, got, exp), dict(info, mode=lab), found=True)
+        try:
+            for lab in ('s-json', 's-yaml'):
+                reps = json.loads(runs[lab][1].decode()) if lab == 's-json' else (yaml.safe_load(runs[lab][1].decode()) if yaml is not None else None)
+                if reps is None:
+                    continue
+                got = sorted((os.path.basename(fr['name']), fr['status'], tuple(sets_from_report(fr)['PASS']), tuple(sets_from_report(fr)['FAIL']), tuple(sets_from_report(fr)['SKIP'])) for fr in reps)
+                exp = sorted((f, w[0], tuple(sorted(w[1])), tuple(sorted(w[2])), tuple(sorted(w[3]))) for f, w in expected)
+                if got != exp:
+                    ctx.failing('data files with outcomes %s: %s reports %s per file, each file alone gives %s' % (''.join(combo), lab, got, exp), dict(info, mode=lab), found=True)
+            docs_j = [x for x in split_json_docs(runs['o-json'][1].decode()) if isinstance(x, dict) and 'not_compliant' in x]
+            got = sorted((os.path.basename(fr['name']), fr['status']) for fr in docs_j)
+            if got != sorted((f, w[0]) for f, w in expected):
+                ctx.failing('data files with outcomes %s: -o json reports %s per file' % (''.join(combo), got), dict(info, mode='o-json'), found=True)
+            root = ET.fromstring(runs['s-junit'][1].decode())
+            marks = []
+            for suite in root.iter('testsuite'):
+                for tc in suite.iter('testcase'):
+                    mark = 'FAIL' if tc.find('failure') is not None else ('ERROR' if tc.find('error') is not None else
+                                                                          ('SKIP' if (tc.get('status') == 'skip' or tc.find('skipped') is not None) else 'PASS'))
+                    marks.append((os.path.basename(suite.get('name') or ''), mark, suite.get('failures'), suite.get('errors')))
+            expm = sorted((f, w[0], '1' if w[0] == 'FAIL' else '0', '0') for f, w in expected)
+            if sorted(marks) != expm:
+                ctx.failing('data files with outcomes %s: JUnit marks (suite, case mark, failures, errors) %s, each file alone gives %s' % (''.join(combo), sorted(marks), expm), dict(info, mode='s-junit'), found=True)
+        except Exception as e:
+            ctx.failing('data files with outcomes %s: a structured output is not well-formed: %s' % (''.join(combo), str(e)[:200]), info, found=True)
+    ctx.coverage['multi_data_scenarios'] = n
+    ctx.coverage['evaluations'] += len(jobs)
+
+
 def run(ctx):
     ctx.build(cli=True)
     pr = ctx.proofs('C07')
@@ -387,6 +477,7 @@ def run(ctx):
     n = run_cross(ctx, 300 if thorough else 36, thorough)
     run_mixed(ctx)
     run_multi(ctx)
+    run_multi_data(ctx)
     ctx.coverage['distinct_nontrivial'] = n
     ctx.coverage['rule'] = ('scenario = generated rules file x document (JSON-compatible), run in 18 configurations (console summary with -S all/pass/fail/skip/none, '
                             '-v, -p, -o json, -o yaml, --structured json/yaml/sarif/junit, stdin, --payload) and through run_checks (verbose and not); distinct = '
